@@ -188,7 +188,14 @@ def run_sequence(cvxopt, rng, nops, lines, obs):
                 r = abs(env[nm]); env[dst] = r; return show_mat(r)
             emit('abs %s %s' % (dst, nm), f)
         elif w == 'len': emit('len ' + nm, lambda: str(len(A)))
-        elif w == 'bool': emit('bool ' + nm, lambda: str(bool(A)).lower())
+        elif w == 'bool':
+            if rng.random() < 0.5:
+                # complex matrices whose non-zero entries are purely real or purely imaginary, and all-zero ones
+                tc, m, n, _ = g.mat('z')
+                vals = [rng.choice([0j, 0j, 2 + 0j, -3j, 1j, -1 + 0j]) for _ in range(m * n)]
+                def f0(): env[nm] = matrix(vals, (m, n), 'z'); return show_mat(env[nm])
+                emit('new %s z %d %d %s' % (nm, m, n, ','.join(num_tok(x) for x in vals) or '-'), f0)
+            emit('bool ' + nm, lambda: str(bool(env[nm])).lower())
         elif w == 'list':
             def f():
                 l = list(A); ty_ = {'i': int, 'd': float, 'z': complex}[A.typecode]
